@@ -1,9 +1,12 @@
 package deferred
 
 import (
+	"bytes"
 	"context"
+	"io"
 
 	"github.com/ipfs/go-cid"
+	carv2 "github.com/ipld/go-car/v2"
 )
 
 func vDWOp(dw *DeferredCarWriter, which int, b vBlk, q cid.Cid) {
@@ -29,6 +32,9 @@ func VerifH_C08_DeferredRaces() {
 	}
 	b1 := vBlk{vCidT("b1"), []byte{1}}
 	b2 := vBlk{vCidT("b2"), []byte{2}}
+	if vChoose("sameBlock", 2) == 1 {
+		b2 = b1
+	}
 	opA := vChoose("opA", 3)
 	opB := vChoose("opB", 3)
 	vAssume(opA <= opB)
@@ -47,7 +53,29 @@ func VerifH_C08_DeferredRaces() {
 			func() { vDWOp(dw, opB, b2, first.c) },
 		)
 	}
-	vRaceCheck("deferred")
+	opNames := []string{"put", "has", "close"}
+	vRaceCheck("deferred-" + opNames[opA] + "-" + opNames[opB])
+	// outcome under whatever schedule ran: after Close, either nothing was ever put and no file
+	// exists, or the file is a well-formed archive with each distinct key at most once
+	dw.Close()
+	img, ok := vFSReadFile(vFSPath("c08d.car"))
+	if ok {
+		br, berr := carv2.NewBlockReader(bytes.NewReader(img), carv2.WithTrustedCAR(true))
+		vAssert("outcome-is-an-archive", berr == nil)
+		var seen []cid.Cid
+		for i := 0; i < 5; i++ {
+			blk, err := br.Next()
+			if err == io.EOF {
+				break
+			}
+			vAssert("outcome-sections-intact", err == nil)
+			for _, s := range seen {
+				vAssert("each-distinct-block-once", !vBytesEq(s.Hash(), blk.Cid().Hash()))
+			}
+			seen = append(seen, blk.Cid())
+		}
+		vAssert("at-most-three-sections", len(seen) <= 3)
+	}
 	vCover("put-vs-close", opA == 0 && opB == 2)
 	vCover("first-put-vs-first-put", opA == 0 && opB == 0)
 }
